@@ -174,6 +174,22 @@ Definition check_sum (parts : list (list Q)) (total : list Q) : bool := ql_close
 Definition check_sum_logd (dparts : list Q) (dtotal : Q) : bool :=
   q_close tol9 dtotal (fold_left Qplus dparts 0%Q).
 
+(* factors of any kind (Likelihood, UserDefinedLikelihood, distribution, UserDefinedDistribution, EvaluatedDensity):
+   the posterior's gradient is the sum over ALL factors its logd sums over; if any factor refuses (no user
+   gradient function, an EvaluatedDensity) the sum refuses.  guard = the Posterior's own geometry guard passes
+   (a multiple-likelihood posterior has none: guard = true). *)
+Fixpoint all_vecs (os : list obs) : option (list (list Q)) :=
+  match os with
+  | [] => Some []
+  | ObsVec g :: r => match all_vecs r with Some gs => Some (g :: gs) | None => None end
+  | _ :: _ => None
+  end.
+Definition check_sum_obs (guard : bool) (parts : list obs) (total : obs) : bool :=
+  match (if guard then all_vecs parts else None) with
+  | Some gs => match total with ObsVec t => check_sum gs t | _ => false end
+  | None => match total with ObsRaised => true | _ => false end
+  end.
+
 (* ------------------------------------------------------------------------------------------
    forward-difference fallback: entry i is (logd(x + eps e_i) - logd(x)) / eps of the SAME logd *)
 Definition fd_quot (eps f0 fi : Q) : Q := ((fi - f0) / eps)%Q.
